@@ -828,9 +828,9 @@ def exception_to_error_frame(stream_id: int, exception: Exception) -> ErrorFrame
 
 def error_frame_to_exception(frame: ErrorFrame) -> Exception:
     if frame.error_code != ErrorCode.APPLICATION_ERROR:
-        return RSocketProtocolError(frame.error_code, data=frame.data.decode())
+        return RSocketProtocolError(frame.error_code, data=frame.data.decode('utf-8', errors='replace'))
 
-    return RuntimeError(frame.data.decode('utf-8'))
+    return RuntimeError(frame.data.decode('utf-8', errors='replace'))
 
 
 def serialize_with_frame_size_header(frame: Frame) -> bytes:
